@@ -109,6 +109,7 @@ class RefInst:
         self.epoch = 0
         self.engine = "sync"
         self.activated = False
+        self.depth = 0
 
     # ------------------------------------------------------------------ state
     @property
@@ -340,18 +341,21 @@ class RefInst:
         pending = None
         for c in cbids:
             full = self.rp.full(c)
-            key = (self.tag, full, self.epoch)
+            dp = self.depth
+            key = (self.tag, full, self.epoch, dp)
             j = self.ref.jc.get(key, 0)
             self.ref.jc[key] = j + 1
             mem = {"c": c, "j": j, "nested": [], "nsret": [], "raises": None}
             item["members"].append(mem)
             if pending is not None:
                 continue
-            rule = self.ref.rule(full, self.tag, self.epoch, j, er.get("kwargs"))
+            rule = self.ref.rule(full, self.tag, self.epoch, j, er.get("kwargs"), dp)
             ret = None
             if rule is not None:
                 sends = rule.get("sends") or []
                 if rule.get("sends_jlt") is not None and not (j < rule["sends_jlt"]):
+                    sends = []
+                if rule.get("sends_dplt") is not None and not (dp < rule["sends_dplt"]):
                     sends = []
                 for s in sends:
                     ner = {"event": s["event"], "args": list(s.get("args") or []),
@@ -361,7 +365,11 @@ class RefInst:
                         mem["nsret"].append(["ret", None])
                     else:
                         try:
-                            r = self._unsent(self._trigger(ner, mem["nested"]))
+                            self.depth += 1
+                            try:
+                                r = self._unsent(self._trigger(ner, mem["nested"]))
+                            finally:
+                                self.depth -= 1
                             nx = mem["nested"][-1]
                             mem["nsret"].append(
                                 ["ret", r, nx.get("nb") if len(nx.get("vals") or []) >= 2 else None])
@@ -374,7 +382,7 @@ class RefInst:
                 if pending is not None:
                     continue
                 if rule.get("raise"):
-                    desc = {"cls": rule["raise"], "sim_id": [full, self.tag, self.epoch, j]}
+                    desc = {"cls": rule["raise"], "sim_id": [full, self.tag, self.epoch, dp, j]}
                     mem["raises"] = desc
                     item["failing"] = True
                     pending = desc
@@ -382,6 +390,8 @@ class RefInst:
                     # the epoch ends here) but mark them optional
                     continue
                 ret = rule.get("ret")
+                if isinstance(ret, dict) and "$uniq" in ret:
+                    ret = f"u:{full}:{self.epoch}:{dp}:{j}"
             mem["ret"] = ret
             vals.append(ret)
         if pending is not None:
@@ -430,11 +440,13 @@ class Ref:
         self.model_state = {}
         self.sidx = {rp.name: {vkey(rp.value_of[s]): i for i, s in enumerate(rp.sid)} for rp in self.progs}
 
-    def rule(self, cbid, tag, epoch, j, kwargs=None):
+    def rule(self, cbid, tag, epoch, j, kwargs=None, dp=0):
         rules = self.beh.get(cbid)
         if not rules:
             return None
         for r in rules:
+            if r.get("dp") is not None and r["dp"] != dp:
+                continue
             if r.get("ep") is not None and r["ep"] != epoch:
                 continue
             if r.get("j") is not None and r["j"] != j:
